@@ -126,6 +126,7 @@ pub struct ConnState {
     pub short_writes: u64,
     pub reset_fired: bool,
     pub read_before_complete: bool,
+    pub continue_sent: bool,
 }
 
 pub struct NetState {
@@ -158,6 +159,7 @@ impl MemNet {
             short_writes: 0,
             reset_fired: false,
             read_before_complete: false,
+            continue_sent: false,
         });
         st.conns.len() - 1
     }
@@ -248,6 +250,16 @@ impl NetState {
         if buf.is_empty() {
             return Ok(0);
         }
+        if c.server.is_none() && c.conn.wants_continue() && !c.continue_sent {
+            // a client that announced Expect: 100-continue gets its interim response (once)
+            c.continue_sent = true;
+            let interim = b"HTTP/1.1 100 Continue\r\n\r\n";
+            let k = interim.len().min(buf.len());
+            buf[..k].copy_from_slice(&interim[..k]);
+            self.note(id, "read", buf.len(), 7, k as u64, "ok:100-continue".into());
+            return Ok(k);
+        }
+        let c = &mut self.conns[id];
         let Some(server) = c.server.as_mut() else {
             // the client reads although it has not sent a complete request: against a real peer this blocks forever
             c.read_before_complete = true;
